@@ -194,7 +194,7 @@ func runOn(root string, files []string, update bool) []*tsh.Result {
 	defer os.RemoveAll(p.WorkdirRoot)
 	t.RunRoot(func() { testscript.RunT(t, p) })
 	if len(t.Results) != len(files) {
-		kit.Harness("RunT ran %d subtests: %s", len(t.Results), t.RootFatal)
+		kit.UnderTestFailed("RunT was given %d scripts and ran %d subtests: %s", len(files), len(t.Results), t.RootFatal)
 	}
 	return t.Results
 }
@@ -257,7 +257,7 @@ func verify(dir, file, text string, c scase, res *tsh.Result, st *counters) stri
 		case representable(act) && utf8.ValidString(act):
 			q, qerr := txtar.Quote([]byte(act))
 			if qerr != nil {
-				kit.Harness("Quote(%q): %v", act, qerr)
+				kit.UnderTestFailed("txtar.Quote(%q) fails: %v (the content is newline-terminated valid UTF-8)", act, qerr)
 			}
 			wantEntry[g] = string(q)
 		default:
